@@ -34,7 +34,7 @@ def flat(tree, rng=None):
     if tree["t"] == "l":
         return "(" + " ".join(flat(c, rng) for c in tree["c"]) + ")"
     if tree["t"] == "n":
-        return num_text(tree["v"], rng)
+        return tree.get("txt") or num_text(tree["v"], rng)
     return tree["v"]
 
 
@@ -60,7 +60,7 @@ def toks(tree, out):
             toks(c, out)
         out.append(")")
     elif tree["t"] == "n":
-        out.append(num_text(tree["v"]))
+        out.append(tree.get("txt") or num_text(tree["v"]))
     else:
         out.append(tree["v"])
     return out
